@@ -352,6 +352,31 @@ func WorkerMain(t *testing.T, h Harness) {
 					ok, _ = replayInFreshProcess(path)
 				}
 				if ok {
+					// bounded minimisation: the shortest prefix of the tape that still shows it in a
+					// fresh process (every candidate costs a process start, so nothing finer is tried)
+					cur, tries := r.Tape, 0
+					for n := len(cur) / 2; n >= 1 && tries < 14; n /= 2 {
+						for len(cur) > n && tries < 14 {
+							tries++
+							rf.Tape = cur[:len(cur)-n]
+							b, _ := json.MarshalIndent(rf, "", " ")
+							if os.WriteFile(path, b, 0o644) != nil {
+								break
+							}
+							if ok, _ := replayInFreshProcess(path); !ok {
+								break
+							}
+							cur = cur[:len(cur)-n]
+						}
+					}
+					rf.Tape, rf.MinRuns = cur, tries
+					b, _ := json.MarshalIndent(rf, "", " ")
+					_ = os.WriteFile(path, b, 0o644)
+					if ok, _ := replayInFreshProcess(path); !ok {
+						rf.Tape = r.Tape
+						b, _ := json.MarshalIndent(rf, "", " ")
+						_ = os.WriteFile(path, b, 0o644)
+					}
 					out.Violations = append(out.Violations, WorkerViolation{prop, u.Class, u.Signature, u.Msg, path, i})
 					stop = true
 					break
